@@ -83,6 +83,15 @@ const (
 var c14StepNames = []string{"Header().Set(Content-Type: application/json)", "WriteHeader(200)", "WriteHeader(201)", "WriteHeader(500)", `Write({"ok":)`, `Write(true})`, "Flush"}
 
 func c14RunHandler(steps []c14Step, w http.ResponseWriter) {
+	// the handler writes from one scratch buffer that it reuses: a Writer must not keep the slice it was handed
+	scratch := make([]byte, 16)
+	write := func(piece string) {
+		n := copy(scratch, piece)
+		w.Write(scratch[:n])
+		for i := range scratch {
+			scratch[i] = '#'
+		}
+	}
 	for _, s := range steps {
 		switch s {
 		case stSetCT:
@@ -94,9 +103,9 @@ func c14RunHandler(steps []c14Step, w http.ResponseWriter) {
 		case stWH500:
 			w.WriteHeader(500)
 		case stW1:
-			w.Write([]byte(`{"ok":`))
+			write(`{"ok":`)
 		case stW2:
-			w.Write([]byte(`true}`))
+			write(`true}`)
 		case stFlush:
 			if f, ok := w.(http.Flusher); ok {
 				f.Flush()
@@ -142,6 +151,7 @@ func init() {
 			"x what the same middleware instance served just before {nothing, a response that failed validation and carried a body, a valid response, an invalid request}; also the older ValidationHandler (request gate). The client writer is harness code mirroring net/http. The same handler run against a plain recorder defines the intended response; the spec makes response validity a one-line predicate. Abstract states: (handler invoked, error callback calls, client status, client body). non-trivial = the request is routable",
 		Assumptions: []string{
 			"client writer mirrors net/http: first status wins, Write implies 200, invalid status codes panic",
+			"the handler writes its pieces from one scratch buffer that it overwrites after every Write (io.Writer: implementations must not retain the slice)",
 			"intended response = the handler sequence run against the harness writer directly; in strict mode equality is on (status, concatenated body)",
 			"a handler that writes nothing may reach the client as nothing (implicit 200) or be replaced by the 500 error in strict mode; it must not panic",
 		},
